@@ -551,6 +551,9 @@ _upd(
     CLAIMED["C02"][2] + "; ast symbolic extraction of message templates + kernel decide over the regenerated table",
 )
 
+_upd("C19", CLAIMED["C19"][0] + " The code written into the file is `str(id)` and that is a Python integer literal for EVERY id, also below 100 "
+     "(code_literal_valid: digits only, no leading zero; a zero-padded rendering such as 008 is refuted as a literal, padded_code_invalid).")
+
 def main() -> int:
     m = build()
     (VERIF / "MANIFEST.json").write_text(json.dumps(m, indent=1, ensure_ascii=False) + "\n")
